@@ -2867,7 +2867,9 @@ def constants_from_enum(cls=None, module=None):
 
 @register_finalize_hook
 def validate_macros_hook(config):
-  for ref in iterate_references(config, to=get_configurable(macro)):
+  # Compare against the unscoped macro configurable: `get_configurable(macro)`
+  # would return a scope-decorated version when a config scope is active.
+  for ref in iterate_references(config, to=_REGISTRY['gin.macro'].wrapper):
     validate_reference(ref, require_evaluation=True)
 
 
